@@ -280,10 +280,12 @@ PROPS = {
         "theorems_note": "Props/C03.v: decimal text read back exactly by every admissible scanner run; varint round trip; BTOR2 operator "
                          "names = keywords (regenerated table); BTOR2 whole-document and single-line round trip of the parser program and writer function; "
                          "AIGER ascii and binary whole-file round trip of the parser programs and writer functions (AigerWrite.v, AigerRt.v: "
-                         "C03_aag_roundtrip, C03_aig_roundtrip), writers tied to the code by the pa stream (flag x)",
+                         "C03_aag_roundtrip, C03_aig_roundtrip), for the simple run, every admissible run and every concrete run "
+                         "(RtAll.v: C03_aag/aig/btor2_roundtrip_all_runs, _concrete); AIGER and DIMACS writer functions tied to the code "
+                         "by the pa stream (flag x)",
         "assumes": ["whole-document round trips of the DIMACS family: oracle on the implementation (partial)",
-                    "BTOR2 round trip: for the simple run; values in the format's domain (line_ok)",
-                    "AIGER round trip: for the simple run; values in the format's domain (aag_ok / aig_ok: what the parsers can return; "
-                    "binary: deltas < 2^56 and 2(I+L+A+1) < 2^64, beyond which binary::Writer's code arithmetic overflows)"],
+                    "BTOR2 round trip: values in the format's domain (line_ok); inputs below 2^62 bytes for the all-runs / concrete forms",
+                    "AIGER round trip: values in the format's domain (aag_ok / aig_ok: what the parsers can return, up to "
+                    "I+L+A = M = 2^63-1; binary: deltas < 2^56); inputs below 2^62 bytes for the all-runs / concrete forms"],
     },
 }
